@@ -266,6 +266,9 @@ pub fn run(tier: &str, only: Option<&Value>) -> i32 {
             }
         }
     }
+    if only.is_none() {
+        tk::explore_mutants(&mut rep);
+    }
     if only.is_none() || only_tok.is_some() {
         tk::explore(&mut rep, tier, "C18", only_tok);
     }
